@@ -877,6 +877,12 @@ class Frame:
                 if all(f is True for f in fs):
                     return True
             return None
+        if isinstance(test, ast.Compare) and len(test.ops) == 1 and isinstance(test.ops[0], (ast.Is, ast.IsNot)) \
+                and not any(isinstance(x, ast.Constant) for x in (test.left, test.comparators[0])):
+            # `a is b` between values whose class tags are disjoint: never the same object
+            ta, tb = self.ev(test.left, env), self.ev(test.comparators[0], env)
+            if ta and tb and all(self.eng.is_class_tag(t) or t in ("num", "str", "bool", "None") for t in ta | tb) and not (ta & tb):
+                return isinstance(test.ops[0], ast.IsNot)
         if isinstance(test, ast.Compare) and len(test.ops) == 1:
             a = self.const_eval(test.left, env)
             b = self.const_eval(test.comparators[0], env)
